@@ -13,8 +13,8 @@ func VerifZZExact() {
 	T := verifrt.Int("T")
 	x := verifrt.Int("x")
 	max := sdkmath.NewInt(1000000)
-	verifrt.Assume(T.IsPositive() && T.LTE(max) && x.IsPositive() && x.LTE(max))
-	verifrt.Assume(S.GTE(sdkmath.LegacyNewDecFromInt(T)) && S.LTE(sdkmath.LegacyNewDecFromInt(max)))
+	verifrt.Assume(verifrt.All(T.IsPositive(), T.LTE(max), x.IsPositive(), x.LTE(max)))
+	verifrt.Assume(verifrt.All(S.GTE(sdkmath.LegacyNewDecFromInt(T)), S.LTE(sdkmath.LegacyNewDecFromInt(max))))
 	sh, _ := SharesFromTokens(S, x, T)
 	back, _ := TokensFromShares(sh, S.Add(sh), T.Add(x))
 	verifrt.Assert(back.Equal(x), "round trip exact (false)")
